@@ -2,8 +2,8 @@
 from harness import check, replay
 
 CFGS = {
-    "quick": ["SumProduct_addmul", "SumProduct_logaddexp", "SumProduct_maxadd"],
-    "thorough": ["SumProduct_addmul3", "SumProduct_logaddexp3", "SumProduct_maxadd", "SumProduct_minadd",
+    "quick": ["SumProduct_scaled", "SumProduct_logaddexp", "SumProduct_maxadd"],
+    "thorough": ["SumProduct_scaled", "SumProduct_logaddexp_scaled", "SumProduct_addmul3", "SumProduct_logaddexp3", "SumProduct_maxadd", "SumProduct_minadd",
                  "SumProduct_maxmul", "SumProduct_orand"],
 }
 
